@@ -44,6 +44,9 @@ def generate(seed, batch):
     scen['sort'] = rng.random() < 0.85
     scen['mass_scale'] = rng.choice([None, None, 10 ** rng.uniform(-2, 2), 10 ** rng.uniform(-14, 4)])
     scen['cross_path'] = rng.random() < 0.4
+    scen['second_pair'] = rng.random() < 0.3
+    # an earlier analysis in the same process that asked for a loose solver tolerance (result not judged)
+    scen['loose_first'] = 10 ** rng.uniform(-3, -1) if rng.random() < 0.15 else None
     if batch in ('F0', 'FI'):
         n = rng.choice([6, 8, 12, 20, 30, 45, 60, 90, 120, rng.randint(6, 200), rng.randint(6, 400)])
         scen['impl'] = rng.choice(['analysis', 'analysis', 'panel'])
@@ -114,7 +117,7 @@ def shrink_candidates(scen):
         c = copy.deepcopy(scen)
         c['faults'] = []
         yield c
-    for key, val in (('mass_scale', None), ('cross_path', False), ('reduced_dof', False), ('second_v0', False), ('redefine_mu', None)):
+    for key, val in (('mass_scale', None), ('cross_path', False), ('reduced_dof', False), ('second_v0', False), ('redefine_mu', None), ('second_pair', False), ('loose_first', None)):
         if scen.get(key) not in (val,):
             c = copy.deepcopy(scen)
             c[key] = val
@@ -190,11 +193,11 @@ def build_panel(scen):
     return p
 
 
-def call_impl(scen, K, M, k, sparse, sort, reduced, obj=None):
+def call_impl(scen, K, M, k, sparse, sort, reduced, obj=None, tol=0):
     impl = scen['impl']
     if impl == 'analysis':
         from compmech.analysis import freq
-        return freq(K, M, tol=0, sparse_solver=sparse, silent=True, sort=sort, reduced_dof=reduced, num_eigvalues=k)
+        return freq(K, M, tol=tol, sparse_solver=sparse, silent=True, sort=sort, reduced_dof=reduced, num_eigvalues=k)
     if impl == 'panel':
         from compmech.panel import Panel
         if obj is None:
@@ -214,7 +217,7 @@ def call_impl(scen, K, M, k, sparse, sort, reduced, obj=None):
             p = obj
             atype = scen['model']['atype']
         p.num_eigvalues = k
-        p.freq(atype=atype, tol=0, sparse_solver=sparse, silent=True, sort=sort, reduced_dof=reduced)
+        p.freq(atype=atype, tol=tol, sparse_solver=sparse, silent=True, sort=sort, reduced_dof=reduced)
         return p.eigvals, p.eigvecs
     raise HarnessError('impl ' + str(impl))
 
@@ -379,6 +382,14 @@ def execute(scen):
         log.add('pair', n, int(len(active)), k, bool(sparse), bool(sort), scen['impl'])
         seam.install([m_freq, m_panel])
         outcome = None
+        if scen.get('loose_first'):
+            saved_faults, seam.faults = seam.faults, {}
+            try:
+                call_impl(scen, K, M, k, sparse, sort, reduced, obj=obj if scen['impl'] == 'panel' else None, tol=scen['loose_first'])
+            except Exception as e:
+                bump(res['exceptions'], 'loose_first_' + type(e).__name__)
+            seam.faults, seam.calls, seam.modes = saved_faults, 0, []
+            bump(res['probes'], 'loose_tolerance_call_first')
         try:
             vals, vecs = call_impl(scen, K, M, k, sparse, sort, reduced, obj=obj if scen['impl'] == 'panel' else None)
             outcome = 'returned'
@@ -409,6 +420,28 @@ def execute(scen):
                 else:
                     check_result(scen, Kd, Md, active, vals2, vecs2, k, not sparse, sort, ref, log, res, tag='(other-path)')
                     bump(res['probes'], 'F5_paths_checked')
+            if scen.get('second_pair') and scen['src'] == 'random':
+                # a second analysis of the same size and mode count but with other null rows, in the same process: its
+                # modes must be zero on ITS null amplitudes, and what the first analysis returned must not change
+                first_sha = (sha_bytes(np.ascontiguousarray(vals).tobytes()), sha_bytes(np.ascontiguousarray(vecs).tobytes()))
+                mat2 = dict(scen['mat'])
+                mat2['mseed'] = scen['mat']['mseed'] ^ 0x9E3779B9
+                mat2['nnull'] = max(1, min(scen['mat']['n'] // 4, scen['mat']['nnull'] + 2))
+                K2d, M2d, act2 = eig.make_pair_freq(mat2)
+                Ka2, Ma2 = K2d[np.ix_(act2, act2)], M2d[np.ix_(act2, act2)]
+                e2 = np.linalg.eigvalsh(Ka2 + Ma2)
+                e2k = np.linalg.eigvalsh(Ka2)
+                refp = {'w': np.sqrt(np.maximum(eigh(Ka2, Ma2, eigvals_only=True), 0.0)), 'mmin': float(np.linalg.eigvalsh(Ma2).min()),
+                        'condKM': float(max(e2.max() / e2.min(), e2k.max() / max(e2k.min(), 1e-300)))}
+                try:
+                    vals6, vecs6 = call_impl(scen, csr_matrix(K2d), csr_matrix(M2d), k, sparse, sort, reduced)
+                except Exception as e:
+                    bump(res['exceptions'], 'second_pair_' + type(e).__name__)
+                else:
+                    check_result(scen, K2d, M2d, act2, vals6, vecs6, k, sparse, sort, refp, log, res, tag='(second-pair)')
+                    bump(res['probes'], 'second_pair_checked')
+                if (sha_bytes(np.ascontiguousarray(vals).tobytes()), sha_bytes(np.ascontiguousarray(vecs).tobytes())) != first_sha:
+                    raise Violation('F9-result-altered', {'why': 'the arrays returned by the first analysis were modified by a later analysis'})
             if scen.get('second_v0'):
                 seam.scen = dict(scen, v0={'cls': 'gauss', 'seed': scen['v0']['seed'] ^ 0x5DEECE66D})
                 try:
